@@ -23,7 +23,7 @@ RULE = ("case = series of 5..80 points (uniform / non-uniform; smooth, noisy or 
         " Also: requests after random histories, a second to_function() after an earlier one followed by further processing or by an in-place write through the arrays get() hands out, series centred to zero mean to rounding, levels far from zero."
         " Round-4 classes: a 'long' kind - 1001..2500 samples, two series agreeing at both ends and differing in the middle fitted one after the other with the same s (two objects, the same object before / after the event, the function), each judged against its own samples."
         " Round-5 classes: a 'huge' kind - 33 000..70 000 samples (smooth signal + tiny noise, s well above the noise energy).")
-REQUIRED_MONITORS = ["c16:long_series", "c16:to_function", "c16:smooth_residual", "c16:smooth_zero", "c16:affine", "c16:default_s"]
+REQUIRED_MONITORS = ["c16:long_series", "c16:special_sizes", "c16:to_function", "c16:smooth_residual", "c16:smooth_zero", "c16:affine", "c16:default_s"]
 ASSUMPTIONS = ["FITPACK non-convergence warnings discard the run (the property's quantifier)"]
 NSHARDS = 16
 DISCARD_HEAVY_OK = False
@@ -34,7 +34,8 @@ def plan(tier, seed):
     big = 2 if tier == "quick" else 40
     return [{"kind": "random", "start": p * (n // NSHARDS), "count": n // NSHARDS} for p in range(NSHARDS)] + \
         [{"kind": "long", "start": p * big, "count": big} for p in range(NSHARDS)] + \
-        [{"kind": "huge", "start": p, "count": 1} for p in range(2 if tier == "quick" else 12)]
+        [{"kind": "huge", "start": p, "count": 1} for p in range(2 if tier == "quick" else 12)] + \
+        [{"kind": "sizes", "start": 7 * p, "count": 7} for p in range(3 if tier == "quick" else 6)]
 
 
 def gen_data(rng):
@@ -273,10 +274,60 @@ def run_long_case(ctx, kind_, idx):
         ctx.sample(info)
 
 
+SPECIAL_SIZES = [b + d for b in (2 ** 15, 2 ** 16, 40000, 50000, 60000, 70000, 80000) for d in (-1, 0, 1)]
+
+
+def run_size_case(ctx, kind_, idx):
+    """series whose length is a round number, one less and one more (block sizes and their off-by-one neighbours):
+    smoothing keeps x and the length, stays within s, and s = 0 is the identity"""
+    from traffic_weaver import Weaver
+    rng = ctx.rng(kind_, idx)
+    cid = ctx.case_id(kind_, idx)
+    m = SPECIAL_SIZES[idx % len(SPECIAL_SIZES)]
+    x = 0.5 * np.arange(m, dtype=float)
+    u = np.linspace(0.0, 1.0, m)
+    y = 10.0 + 5.0 * np.sin(2 * np.pi * u * 2) + 1e-3 * rng.normal(0, 1, m)
+    s = float(10 ** rng.uniform(0.5, 2)) if (idx // len(SPECIAL_SIZES) + idx) % 2 else 0.0
+    info = {"m": m, "s": s}
+    try:
+        with warnings.catch_warnings(record=True) as wlog:
+            warnings.simplefilter("always")
+            wv = Weaver(x.copy(), y.copy())
+            wv.smooth(s)
+            gx, gy = wv.get()
+        if any(issubclass(w.category, RuntimeWarning) for w in wlog):
+            ctx.discard("fitpack_warning")
+            return
+        ctx.judged()
+        ctx.monitor("c16:special_sizes")
+        if not (isinstance(gy, np.ndarray) and isinstance(gx, np.ndarray) and gx.shape == x.shape and gy.shape == y.shape
+                and np.array_equal(gx, x)):
+            ctx.violation("smooth_changed_x_or_length", cid, {"lengths": [len(gx), len(gy)], "case": info})
+            return
+        res = float(np.sum((gy - y) ** 2))
+        if s == 0.0:
+            if not float(np.max(np.abs(gy - y))) <= 1e-9 * 15.0:
+                ctx.violation("smooth_zero_not_identity", cid, {"err": float(np.max(np.abs(gy - y))), "case": info})
+                return
+        elif not res <= 1.0011 * s + 1e-9 * 225.0 * m:
+            ctx.violation("residual_exceeds_s", cid, {"residual": res, "s": s, "case": info})
+            return
+        ctx.nontriv("c16sizes", idx)
+    except Exception as e:
+        ctx.judged()
+        ctx.exception("raised_on_admissible_input", cid, e, {"case": info})
+
+
 def run(ctx, spec):
+    if spec["kind"] == "sizes":
+        for idx in range(spec["start"], spec["start"] + spec["count"]):
+            run_size_case(ctx, spec["kind"], idx)
+        return
     for idx in range(spec["start"], spec["start"] + spec["count"]):
         (run_long_case if spec["kind"] in ("long", "huge") else run_case)(ctx, spec["kind"], idx)
 
 
 def replay(ctx, case):
+    if case["kind"] == "sizes":
+        return run_size_case(ctx, case["kind"], case["idx"])
     (run_long_case if case["kind"] in ("long", "huge") else run_case)(ctx, case["kind"], case["idx"])
